@@ -5,7 +5,9 @@ package main
 import (
 	"encoding/json"
 	"fmt"
+	"math/rand"
 	"reflect"
+	"sync"
 
 	jmespath "github.com/jmespath/go-jmespath"
 )
@@ -64,9 +66,78 @@ func classifyCompileErr(err error) Obs {
 	return Obs{Kind: "comperr", Msg: err.Error()}
 }
 
+// Interference: between two observed calls the harness sometimes makes calls whose
+// outcome it ignores - failing expressions, cut in the middle of a token, and
+// expressions that fail when evaluated.  No call may influence a later one (C13,
+// C12), so on a library that keeps no state across calls these change nothing and
+// can never cause an alarm; on one that does (a pooled lexer or parser, a cache, a
+// counter) the observed call differs from what the model, which has no history,
+// computes.  The calls made before an observation are recorded with the case
+// ("prelude") and replayed with it.
+var interRng *rand.Rand
+var pendingPrelude []string
+var interMu sync.Mutex
+
+var poisonPool = []string{
+	"'it\\'s", "'a\\'b\\'c", "'\\'", "'abc", "\"ab\\\"c", "\"k", "`{\"a\": \\`", "`[1, 2", "foo[?a == 'x\\'y", "[?a=='q\\'", "a.'b\\'c",
+	"((((((((a", "[[[[[[a", "{a: {b: {c: ", "f(g(h(&", "a.b.", "a[", "a[?b", "a ||", "!", "foo(", "'p' | 'q\\'r", "a | 'x\\'y' | `\"z\\``",
+	"abs('x')", "sort_by(@, &a)", "length(`1`)", "nosuch(@)", "a.b.c[0].d", "'ok\\'fine'", "\"quoted\\\"name\"",
+}
+var poisonDoc interface{} = map[string]interface{}{"a": []interface{}{1.0, "x", nil}, "foo": map[string]interface{}{"b": 2.0}}
+
+func runPoison(p string) {
+	defer func() { recover() }()
+	switch len(p) % 3 {
+	case 0:
+		jmespath.Search(p, poisonDoc)
+	case 1:
+		jmespath.Compile(p)
+	default:
+		jmespath.NewParser().Parse(p)
+		jmespath.Search(p, nil)
+	}
+}
+
+func interfere(expr string) {
+	if interRng == nil {
+		return
+	}
+	interMu.Lock()
+	var ps []string
+	if interRng.Intn(4) == 0 {
+		for i := 0; i < 1+interRng.Intn(2); i++ {
+			if interRng.Intn(3) == 0 && len(expr) > 1 {
+				ps = append(ps, expr[:1+interRng.Intn(len(expr)-1)])
+			} else {
+				ps = append(ps, poisonPool[interRng.Intn(len(poisonPool))])
+			}
+		}
+		pendingPrelude = append(pendingPrelude, ps...)
+	}
+	interMu.Unlock()
+	for _, p := range ps {
+		runPoison(p)
+	}
+}
+
+func peekPrelude() []string {
+	interMu.Lock()
+	defer interMu.Unlock()
+	return append([]string(nil), pendingPrelude...)
+}
+
+func takePrelude() []string {
+	interMu.Lock()
+	defer interMu.Unlock()
+	p := pendingPrelude
+	pendingPrelude = nil
+	return p
+}
+
 // observeSearch runs the one-shot Search. A compile-stage error is told apart
 // from an evaluation error by compiling separately first.
 func observeSearch(expr string, doc interface{}) (o Obs) {
+	interfere(expr)
 	defer func() {
 		if r := recover(); r != nil {
 			o = Obs{Kind: "panic", Msg: fmt.Sprint(r)}
@@ -111,6 +182,7 @@ func (a AObs) coq() string {
 }
 
 func observeCompile(expr string) (a AObs) {
+	interfere(expr)
 	defer func() {
 		if r := recover(); r != nil {
 			a = AObs{Kind: "panic", Msg: fmt.Sprint(r)}
@@ -145,6 +217,7 @@ func (t TObs) coq() string {
 }
 
 func observeTokens(expr string) (t TObs) {
+	interfere(expr)
 	defer func() {
 		if r := recover(); r != nil {
 			t = TObs{Kind: "panic", Msg: fmt.Sprint(r)}
